@@ -42,14 +42,18 @@ func (f *Figure) ElementType() string {
 }
 
 func (f *Figure) GenerateOutput(textOnly bool) string {
+	// The clone is nil when nothing of the caption is visible.
 	figCaption := domutil.CloneAndProcessTree(f.Caption, f.PageURL)
 	if textOnly {
+		if figCaption == nil {
+			return ""
+		}
 		return domutil.InnerText(figCaption)
 	}
 
 	figure := dom.CreateElement("figure")
 	dom.AppendChild(figure, f.getProcessedNode())
-	if dom.InnerHTML(f.Caption) != "" {
+	if figCaption != nil && dom.InnerHTML(f.Caption) != "" {
 		dom.AppendChild(figure, figCaption)
 	}
 
